@@ -359,6 +359,17 @@ class AliasAnalysis:
         args = [self._expr(a, env, ctx) for a in e.args]
         kws = {k.arg: self._expr(k.value, env, ctx) for k in e.keywords}
         f = e.func
+        if isinstance(f, ast.Name) and f.id == 'setattr' and len(e.args) == 3 and isinstance(e.args[0], ast.Name) and e.args[0].id == 'self' and ctx.is_method:
+            lit = _literal(e.args[1], ctx.consts)
+            targets = [lit] if isinstance(lit, str) else ['*']
+            for t_ in targets:
+                ctx.summ.field_stores.setdefault(t_, set()).update(_flat(args[2]))
+            return frozenset({FRESH})
+        if isinstance(f, ast.Name) and f.id == 'getattr' and len(e.args) >= 2 and isinstance(e.args[0], ast.Name) and e.args[0].id == 'self' and ctx.is_method:
+            lit = _literal(e.args[1], ctx.consts)
+            if isinstance(lit, str):
+                return env.get('self.' + lit, frozenset({'FIELD:' + lit}))
+            return frozenset({'FIELD:*'})
         r = self.prog.resolve_expr(ctx.fi.module, f, ctx.imports) if not _rooted_in_local(f, env) else None
         if r is not None and r[0] == 'lib':
             name = r[1]
